@@ -157,6 +157,7 @@ func runC08(r *Run, rng *Rng, thorough bool) {
 			if gderr == nil && gettersOnly(observe(gc)) != gettersOnly(observe(sc)) {
 				fail("like-sibling", "DecodeAndValidateClaimsFromJSON result differs from DecodeClaimsFromJSON")
 			}
+			deprecatedAliases(r, "own JSON", sj)
 		}
 		if sterr == nil {
 			se, sderr := psa.DecodeEvidenceFromCOSE(append([]byte{}, stok...))
